@@ -90,6 +90,11 @@ N("C04", "isinstance-tuple", INTER, "inter_segment_convexpolygon",
   "elif isinstance(inter_l_cpg, Point) or isinstance(inter_l_cpg, Segment):", "elif isinstance(inter_l_cpg, (Point, Segment)):")
 
 # =========================================================================== C15
+F("C15", "parallelogram-cross-product-guard", G + "polygon.py", "ConvexPolygon.Parallelogram", "elif v1.parallel(v2):", "elif v1.cross(v2) == Vector.zero():",
+  rule="R15.1", note="absolute test of a degree-(1,1) quantity instead of a direction test")
+F("C15", "parallelepiped-cross-product-guard", G + "polyhedron.py", "ConvexPolyhedron.Parallelepiped", "v1.parallel(v2) or", "v1.cross(v2).length() < get_eps() or", rule="R15.1")
+N("C15", "parallelogram-unit-cross-guard", G + "polygon.py", "ConvexPolygon.Parallelogram", "elif v1.parallel(v2):",
+  "elif v1.parallel(v2) or v1.normalized().cross(v2.normalized()) == Vector.zero():", note="degree 0 in both vectors")
 F("C15", "delete-line-guard", G + "line.py", "Line.__init__",
   "    if self.dv == Vector.zero():\n        raise ValueError('Invalid Line, Vector(0 | 0 | 0)')", "    pass", rule="R15.1")
 F("C15", "line-guard-exact", G + "line.py", "Line.__init__", "if self.dv == Vector.zero():",
@@ -237,6 +242,17 @@ F("C05", "polyhedron-point-first-face", G + "polyhedron.py", "ConvexPolyhedron._
 F("C05", "polyhedron-point-any-face", G + "polyhedron.py", "ConvexPolyhedron.__contains__",
   "            if direction_vector * polygon.plane.n > get_eps():\n                return False\n        return True",
   "            if direction_vector * polygon.plane.n <= get_eps():\n                return True\n        return False", rule="R5.3")
+F("C05", "polygon-point-exact-threshold", G + "polygon.py", "ConvexPolygon.__contains__", "if vec * v1 < -get_eps():", "if vec * v1 < 0:", rule="R5.5",
+  note="boundary points rejected by float noise")
+F("C05", "polyhedron-point-exact-threshold", G + "polyhedron.py", "ConvexPolyhedron.__contains__",
+  "if direction_vector * polygon.plane.n > get_eps():", "if direction_vector * polygon.plane.n > 0:", rule="R5.5")
+F("C05", "halfline-point-exact-threshold", G + "halfline.py", "HalfLine.__contains__", "> -get_eps()", "> 0", rule="R5.5", count=0)
+F("C05", "polyhedron-point-early-accept", G + "polyhedron.py", "ConvexPolyhedron.__contains__",
+  "        for polygon in self.convex_polygons:\n            direction_vector",
+  "        if other.distance(self.center_point) < 1:\n            return True\n        for polygon in self.convex_polygons:\n            direction_vector", rule="R5.3")
+N("C05", "polyhedron-point-exact-precheck-falls-through", G + "polyhedron.py", "ConvexPolyhedron.__contains__",
+  "        for polygon in self.convex_polygons:\n            direction_vector",
+  "        if other.distance(self.center_point) < 0:\n            pass\n        for polygon in self.convex_polygons:\n            direction_vector")
 N("C05", "polygon-point-early-exit", G + "polygon.py", "ConvexPolygon.__contains__", "        r1 = other in self.plane\n",
   "        r1 = other in self.plane\n        if not r1:\n            return False\n")
 N("C05", "segment-point-carrier-first", G + "segment.py", "Segment.__contains__", "        r1 = other in self.line\n",
@@ -310,6 +326,12 @@ N("C11", "acute-ge", C + "acute.py", "acute", "if rad > 0.5 * math.pi:", "if rad
 # =========================================================================== C14
 PG = G + "polygon.py"
 PH = G + "polyhedron.py"
+F("C14", "cylinder-top-cap-reversed-normal", PH, "ConvexPolyhedron.Cylinder", "top_circle = Circle(center=top_point, normal=height_vector,",
+  "top_circle = Circle(center=top_point, normal=-height_vector,", rule="R14.6", note="the cap's ring is the mirror image of the side faces' ring")
+F("C14", "cone-ring-other-radius", PH, "ConvexPolyhedron.Cone", "circle_point_list = get_circle_point_list(center=circle_center, normal=height_vector, radius=radius, n=n)",
+  "circle_point_list = get_circle_point_list(center=circle_center, normal=height_vector, radius=radius * 2, n=n)", rule="R14.6")
+N("C14", "cone-cap-scaled-normal", PH, "ConvexPolyhedron.Cone", "circle = Circle(center=circle_center, normal=height_vector,",
+  "circle = Circle(center=circle_center, normal=height_vector * 2,", note="a positive multiple of the normal gives the same ring")
 F("C14", "circle-moves-centre", PG, "get_circle_point_list", "copy.deepcopy(center).move(", "center.move(", rule="R14.1")
 F("C14", "parallelogram-moves-base", PG, "ConvexPolygon.Parallelogram", "copy.deepcopy(base_point).move(v1), ", "base_point.move(v1), ", rule="R14.1")
 F("C14", "parallelepiped-moves-base", PH, "ConvexPolyhedron.Parallelepiped", "p_diag = copy.deepcopy(base_point).move(v1).move(v2).move(v3)",
